@@ -114,6 +114,8 @@ def split_traces(text):
         if l.startswith("trace "):
             cur = (l[6:], [])
             out.append(cur)
+        elif l == "end":
+            cur = None
         elif cur is not None and l:
             cur[1].append(l)
     return out
@@ -292,7 +294,7 @@ def run(ck):
 
     rng = vf.SplitMix(ck.seed)
     corpus = [c[0] for c in vf.corpus_cases(PID) if c]
-    nq = ck.scale(1500, 40000)
+    nq = ck.scale(1500, 30000)
     if not ck.proof_ok:
         nq *= 3
     scns = corpus + [gen_scn(rng, i) for i in range(nq)]
@@ -336,7 +338,7 @@ def run(ck):
         return n
     nrej += handle(fails, hbin, "trace-validation", stats, True, 3)
     # 2. TSan build on a share of the scenarios
-    nt = ck.scale(300, 6000)
+    nt = ck.scale(300, 5000)
     tscn = scns[:len(corpus)] + scns[len(corpus)::max(1, len(scns) // nt)][:nt]
     tf = []
     if not ck.violations:
